@@ -22,7 +22,13 @@ handshake and Hello reply driven by hand).  Operations:
   ['err', who, v]              error reply; v indexes ERR_VARIANTS
   ['group', [ret/err ops]]     several replies in ONE dataReceived
   ['expire', who]              the clock is advanced to the deadline of that call's timer (who as above)
+  ['expire2', who, who]        two calls with EQUAL deadlines, both due in one Clock.advance
   ['lost', n]                  connectionLost(reason n)
+  ['ondisc', 'raise' | [[tmo, rs], ...]]   notifyOnDisconnect of a callback that raises / issues these calls
+                               (refs ['d', i, j]); a call may also carry a 6th element: calls its success callback
+                               issues (refs ['s', k, j])
+  ['otherconn']                a second connection of the process is made ready with one call outstanding
+  ['callbig', rs]              callRemote whose message exceeds the maximum size (raises after the serial is taken)
 
 Replies are real message bytes (MethodReturnMessage / ErrorMessage .rawMessage) through
 dataReceived.  After every operation the harness records: the new firings of every Deferred
@@ -59,6 +65,12 @@ THEOREMS = [
     'serials_distinct',
     'counter_run_properties',
     'serial_reuse_violates',
+    'return_signature_binding',
+    'caller_outcome',
+    'caller_gets_convention',
+    'retry_lands_after_loss',
+    'disconnect_callback_call_is_failed',
+    'raising_disconnect_callback_aborts_loss',
     'reentrant_reduces',
     'reentrant_exactly_once',
     'retry_during_loss_times_out',
@@ -73,6 +85,9 @@ TRUSTED_BASE = [
     'that were sent (C03/C04/C01): the harness feeds real message bytes and maps the sent (signature, body) to the '
     "model's Reply",
     'the reactor is single-threaded: a schedule is a sequence of atomic events',
+    'time is abstract in the model (`expire` may happen whenever the timer is active); that callLater is given the '
+    "caller's timeout as the delay is tied by the harness only (deadlines are multiples of 0.5 s of virtual time and "
+    'the clock is advanced exactly to them; int, float, sub-second and `True` timeouts occur)',
 ]
 ASSUMPTIONS = [
     'serials of the calls on one connection are pairwise distinct (proved for the process-wide counter: theorem '
@@ -81,6 +96,12 @@ ASSUMPTIONS = [
     'a caller\'s errback may issue new calls synchronously (stream reentrant, theorem reentrant_reduces); other '
     're-entrant use of the connection from callbacks (disconnecting, feeding data) is not generated',
     'Twisted calls connectionLost at most once and delivers no data afterwards',
+    'argument domains: timeout is None, 0 / 0.0, or a positive finite int / float / True; negative, NaN, infinite or '
+    'non-numeric timeouts are not modelled (Clock and the real reactor differ on them; a str makes callRemote return a '
+    'failed Deferred with nothing registered); returnSignature is the default, None or a str',
+    'readings the statement leaves open and the code model fixes: returnSignature=None declares "no value" (like \'\'), '
+    'timeout=0 means no deadline; the monitor accepts both readings, a change of reading shows as a model '
+    'disagreement without failing input (by design: the model has to follow)',
 ]
 RULE = ('scenarios: all interleavings of per-call event lists (issue, then returns / errors / expiries in every order, '
         'duplicates included) for N <= 3 calls (quick) / N <= 4 (thorough), with an unsolicited reply or a connection '
@@ -795,7 +816,9 @@ class Monitor:
         if kind == 'hello':
             self.state[0] = 'skip'
             return
-        if kind in ('call', 'callbad', 'callbig', 'recall'):
+        if kind in ('call', 'callbad', 'callbig', 'recall') and not st.created:
+            pass        # the operation raised before a call existed (reported below as a fault)
+        elif kind in ('call', 'callbad', 'callbig', 'recall'):
             did = st.created[0]
             c = im.calls[did]
             if c.get('bad'):
